@@ -282,6 +282,8 @@ class IterativeNodeFinder(IterativeFinder):
             if peer not in self.yielded_peers
             and peer.node_id != self.protocol.node_id
             and self.peer_manager.peer_is_good(peer) is True  # return only peers who answered
+            # ...under this node id: peer_is_good only knows the endpoint, which may have replied as another node
+            and self.peer_manager.get_node_id_for_endpoint(peer.address, peer.udp_port) == peer.node_id
         ]
         not_yet_yielded.sort(key=lambda peer: self.distance(peer.node_id))
         to_yield = not_yet_yielded[:max(constants.K, self.max_results)]
